@@ -14,6 +14,11 @@ BitArrayT<NCapacity>::Bits::operator bool() const noexcept {
 			return true;
 
 	const Short bit = _width % 8;
+
+	// a view ending on a unit boundary must not look at the unit past its end
+	if (bit == 0)
+		return false;
+
 	const uint8_t mask = (1 << bit) - 1;
 	const uint8_t& unit = _storage[fullUnits];
 
@@ -140,6 +145,11 @@ BitArrayT<NCapacity>::CBits::operator bool() const noexcept {
 			return true;
 
 	const Short bit = _width % 8;
+
+	// a view ending on a unit boundary must not look at the unit past its end
+	if (bit == 0)
+		return false;
+
 	const uint8_t mask = (1 << bit) - 1;
 	const uint8_t& unit = _storage[fullUnits];
 
